@@ -192,3 +192,195 @@ def datetime_cases(r: random.Random, n: int) -> Cases:
             cs.add("datetime.parse", [tx, wopt(fm), "1" if strict else "0"], parse_outcome(c, cls, tx, fm, strict))
     cs.add("datetime.parse", ["2023-01-02 03:04:05.000006", "~", "0"], parse_outcome(c, cls, "2023-01-02 03:04:05.000006", None, False))
     return cs
+
+
+# ------------------------------------------------------------------------------------------------ Naming
+
+WORDS = ["data", "engineer", "a", "e", "b", "d", "de", "ab", "x1", "1", "1a", "io", "aeiou", "bcd", "dd", "pipeline", "v2", "k8s", "id", "foo", "bar9"]
+
+
+def rand_name(r: random.Random) -> list[str]:
+    k = r.choice([1, 1, 2, 2, 3, 4])
+    ws = []
+    for _ in range(k):
+        if r.random() < 0.7:
+            ws.append(r.choice(WORDS))
+        else:
+            ws.append("".join(r.choice("abdeio19xz") for _ in range(r.randint(1, 5))))
+    return ws
+
+
+def words_arg(ws) -> str:
+    return ",".join(esc(w) for w in ws)
+
+
+def naming_cases(r: random.Random, n: int) -> Cases:
+    cs = Cases("naming")
+    c, cls = "naming", Naming
+    alpha = "abdeiABDE019 _-xZ\n"
+    cs.add("naming.regex", [], lambda: "ok:" + ",".join(esc(k) + "=" + esc(v) for k, v in cls.regex().items()))
+    ds = directives(c)
+    for _ in range(n):
+        ws = rand_name(r)
+        for k in r.sample(ds, 4):
+            cs.add("naming.render", [words_arg(ws), k], lambda ws=ws, k=k: "ok:" + esc(__import__("fmtutil").utils.caller(cls.formatter(ws)[k]["value"])))
+        fmt = rand_fmt(r, c, k=r.randint(1, 3))
+        cs.add("naming.format", [words_arg(ws), fmt], lambda ws=ws, fmt=fmt: "ok:" + esc(cls.from_value(ws).format(fmt)))
+        cs.add("naming.from_value", [words_arg(ws)], lambda ws=ws: "ok:" + esc(cls.from_value(ws).string))
+        cs.add("naming.gen_format", [fmt, "", ""], lambda fmt=fmt: "ok:" + esc(cls.gen_format(fmt)))
+        toks = [r.choice(ds) for _ in range(r.randint(1, 3))]
+        sep = r.choice(SEPS[c])
+        fm = sep.join(toks)
+        ws2 = rand_name(r)
+        try:
+            pieces = [__import__("fmtutil").utils.caller(cls.formatter(ws)[k]["value"]) for k in toks]
+            variants = [sep.join(pieces)]
+            j = r.randrange(len(toks))
+            p2 = list(pieces)
+            p2[j] = __import__("fmtutil").utils.caller(cls.formatter(ws2)[toks[j]]["value"])
+            variants.append(sep.join(p2))
+            variants.append(mutate(r, variants[0], alpha))
+            for tx in variants:
+                for strict in (False, True):
+                    cs.add("naming.parse", [tx, wopt(fm), "1" if strict else "0"], parse_outcome(c, cls, tx, fm, strict))
+                fmt2 = r.choice(ds)
+                cs.add("naming.parse_format", [tx, wopt(fm), "0", fmt2], lambda tx=tx, fm=fm, fmt2=fmt2: "ok:" + esc(cls.parse(tx, fm).format(fmt2)))
+        except Exception:  # noqa: BLE001
+            pass
+    return cs
+
+
+# ------------------------------------------------------------------------------------------------ Version
+
+def mirror_fmt(v) -> tuple[str, str]:
+    """(text, format) that mirrors the structure of a VersionPackage object"""
+    text = f"{v.major}.{v.minor}.{v.patch}"
+    fmt = "%m.%n.%c"
+    if v.epoch:
+        text, fmt = f"{v.epoch}!{text}", "%e" + fmt
+    if v.pre:
+        text, fmt = text + v.pre, fmt + "%q"
+    if v.post:
+        text, fmt = text + v.post, fmt + "%p"
+    if v.dev:
+        text, fmt = text + v.dev, fmt + "%d"
+    if v.local:
+        text, fmt = text + "+" + v.local, fmt + "%l"
+    return text, fmt
+
+
+def version_cases(r: random.Random, n: int) -> Cases:
+    from gen_ver import pkg_strings, wire
+    from fmtutil import VerPackage
+    cs = Cases("version")
+    c, cls = "version", Version
+    alpha = "0123456789.-_+!abrcvpost \n"
+    cs.add("version.regex", [], lambda: "ok:" + ",".join(esc(k) + "=" + esc(v) for k, v in cls.regex().items()))
+    ds = directives(c)
+    vers = []
+    for s in pkg_strings(r, n):
+        try:
+            vers.append(VerPackage.parse(s))
+        except ValueError:
+            pass
+    for _ in range(n):
+        v = r.choice(vers)
+        for k in r.sample(ds, 4):
+            cs.add("version.render", [wire(v), k], lambda v=v, k=k: "ok:" + esc(__import__("fmtutil").utils.caller(cls.formatter(v)[k]["value"])))
+        fmt = rand_fmt(r, c, k=r.randint(1, 4))
+        cs.add("version.format", [wire(v), fmt], lambda v=v, fmt=fmt: "ok:" + esc(cls.from_value(v).format(fmt)))
+        cs.add("version.from_value", [wire(v)], lambda v=v: "ok:" + esc(cls.from_value(v).string))
+        cs.add("version.gen_format", [fmt, "", ""], lambda fmt=fmt: "ok:" + esc(cls.gen_format(fmt)))
+        text, mf = mirror_fmt(v)
+        if r.random() < 0.3:
+            mf = mf.replace(".", r.choice(["_", "-", " "]))
+            text2 = text
+        for tx in (text, mutate(r, text, alpha)):
+            for strict in (False, True):
+                cs.add("version.parse", [tx, wopt(mf), "1" if strict else "0"], parse_outcome(c, cls, tx, mf, strict))
+        fmt2 = rand_fmt(r, c, k=2, weird=0.0)
+        cs.add("version.parse_format", [text, wopt(mf), "0", fmt2], lambda text=text, mf=mf, fmt2=fmt2: "ok:" + esc(cls.parse(text, mf).format(fmt2)))
+    for tx, fm in [("01.2.3", "%m.%n.%c"), ("1.2.3-1", "%m.%n.%c%p"), ("1.2.3rc1", "%m.%n.%c%q"), ("1.2.3.rc1", "%m.%n.%c.%q"), ("1_2_3", "%f"), ("1-2-3", "%-f"),
+                   ("1!2.3.4", "%e%m.%n.%c"), ("1 2.3.4", "%-e %m.%n.%c"), ("1.2.3+abc.1", "%m.%n.%c%l"), ("1.2.3 abc.1", "%m.%n.%c %-l"), ("1.2.3 5", "%m.%n.%c %-p"),
+                   ("1.2.3dev4", "%m.%n.%c%d"), ("999.999.999", "%m.%n.%c"), ("1000.0.0", "%m.%n.%c"), ("1.2.3c1", "%m.%n.%c%q"), ("1.2.3preview-2", "%m.%n.%c%q"),
+                   ("1.2.3r.2", "%m.%n.%c%p"), ("1.2.3alpha1", "%m.%n.%c%q")]:
+        for strict in (False, True):
+            cs.add("version.parse", [tx, wopt(fm), "1" if strict else "0"], parse_outcome(c, cls, tx, fm, strict))
+    return cs
+
+
+# ------------------------------------------------------------------------------------------------ Storage
+
+def rand_bits(r: random.Random) -> int:
+    k = r.random()
+    if k < 0.3:
+        u = r.randint(0, 8)
+        return r.choice([0, 1, 2, 3, 7, 10, 100, 1023, 1024, 1025]) * 8 * 1024 ** u
+    if k < 0.5:
+        return r.randint(0, 10 ** r.randint(1, 26))
+    if k < 0.7:
+        u = r.randint(0, 8)
+        return (8 * 1024 ** u) * r.randint(0, 2000) + r.choice([0, 4 * 1024 ** u, 4 * 1024 ** u + 1, 4 * 1024 ** u - 1, 1])
+    return r.choice([0, 8, 80, 81, 800, 1000, 8192, 8191, 10 ** 26, 10 ** 27 - 1, 2 ** 80, 12 * 8 * 1024 ** 2])
+
+
+def storage_cases(r: random.Random, n: int) -> Cases:
+    cs = Cases("storage")
+    c, cls = "storage", Storage
+    D = decimal.Decimal
+    alpha = "0123456789.BKMGE x\n-+_e"
+    cs.add("storage.regex", [], lambda: "ok:" + ",".join(esc(k) + "=" + esc(v) for k, v in cls.regex().items()))
+    ds = directives(c)
+    for _ in range(n):
+        # the decimal model on its own
+        a, b = r.randint(0, 10 ** r.randint(1, 32)), r.choice([8, 1024, 1024 ** 2, 1024 ** 5, 1024 ** 8, 3, 7])
+        ea = r.choice([0, 0, -1, -3, 2])
+        sa = f"{a}E{ea}"
+        cs.add("storage.decdiv", [sa, str(b)], lambda sa=sa, b=b: dec_text(D(sa) / D(b)))
+        cs.add("storage.decmul", [sa, str(b)], lambda sa=sa, b=b: dec_text(D(sa) * D(b)))
+        def q0(sa=sa):
+            try:
+                return dec_text(round(D(sa), 0))
+            except decimal.InvalidOperation:
+                return "invalid"
+        cs.add("storage.decq0", [sa], q0)
+        t = r.choice(["1", "1.50", ".5", "5.", "1E5", "1e-3", "007", "0.000001", "0.0000001", "1_0", " 5 ", "-3", "+2", ".", "", "1.2.3", "e5", "1E", "12345678901234567890123456789012"]) if r.random() < 0.5 else mutate(r, str(r.randint(0, 10**6)), alpha)
+        def dd(t=t):
+            try:
+                d = D(t)
+                if not d.is_finite():
+                    return "nonfinite"
+                return dec_text(d) + " " + esc(str(d))
+            except decimal.InvalidOperation:
+                return "invalid"
+        if "n" not in t.lower() and "i" not in t.lower():
+            cs.add("storage.dec", [t], dd)
+        v = rand_bits(r)
+        for k in r.sample(ds, 3):
+            cs.add("storage.render", [str(v), k], lambda v=v, k=k: "ok:" + esc(__import__("fmtutil").utils.caller(cls.formatter(v)[k]["value"])))
+        fmt = rand_fmt(r, c, k=r.randint(1, 2))
+        cs.add("storage.format", [str(v), fmt], lambda v=v, fmt=fmt: "ok:" + esc(cls.from_value(v).format(fmt)))
+        cs.add("storage.from_value", [str(v)], lambda v=v: "ok:" + esc(cls.from_value(v).string))
+        toks = [r.choice(ds) for _ in range(r.randint(1, 3))]
+        sep = r.choice(SEPS[c])
+        fm = sep.join(toks)
+        try:
+            pieces = [__import__("fmtutil").utils.caller(cls.formatter(v)[k]["value"]) for k in toks]
+            variants = [sep.join(pieces), mutate(r, sep.join(pieces), alpha)]
+            v2 = rand_bits(r)
+            j = r.randrange(len(toks))
+            p2 = list(pieces)
+            p2[j] = __import__("fmtutil").utils.caller(cls.formatter(v2)[toks[j]]["value"])
+            variants.append(sep.join(p2))
+            for tx in variants:
+                for strict in (False, True):
+                    cs.add("storage.parse", [tx, wopt(fm), "1" if strict else "0"], parse_outcome(c, cls, tx, fm, strict))
+            fmt2 = r.choice(ds)
+            cs.add("storage.parse_format", [variants[0], wopt(fm), "0", fmt2], lambda tx=variants[0], fm=fm, fmt2=fmt2: "ok:" + esc(cls.parse(tx, fm).format(fmt2)))
+        except Exception:  # noqa: BLE001
+            pass
+    for tx, fm in [("", "%b"), ("B", "%B"), ("1x2", "%b"), ("80.0", "%b"), ("80.5", "%b"), ("10B 80", "%B %b"), ("10B 81", "%B %b"), ("1KB 8192", "%K %b"),
+                   ("1E3", "%b"), ("-8", "%b"), (" 8", "%b"), ("12345678901234567890123456789B", "%B"), ("9999999999999999999999999999B", "%B"), ("0B", "%B"), ("0", "%b")]:
+        for strict in (False, True):
+            cs.add("storage.parse", [tx, wopt(fm), "1" if strict else "0"], parse_outcome(c, cls, tx, fm, strict))
+    return cs
